@@ -1124,3 +1124,53 @@ func VerifC20DuplicateInputs() {
 	vassert(err1 != nil, "a predecessor declared twice for one node / two mappings onto one END field are rejected by Compile")
 	vassert(err2 != nil, "and on every further attempt")
 }
+
+// Further ill-formed constructions: a chain whose Compile failed on an option error is finalised - a later Append is
+// reported by the next Compile instead of producing a runnable that silently lacks the appended stage; an error found
+// by Workflow.Compile in the declarations (a branch to an unknown node) sticks; a nil field mapping, an empty Lambda
+// value and a condition-less chain branch are rejected with an error, never a panic.
+func VerifC20MoreIllFormed() {
+	ctx := context.Background()
+	vcfg("fifo", 1)
+	switch vchoose("case", 5) {
+	case 0:
+		ch := NewChain[map[string]any, map[string]any]()
+		ch.AppendLambda(vNode("a", nil))
+		_, e1 := ch.Compile(ctx, WithNodeTriggerMode(AllPredecessor)) // an option a chain does not take
+		vassert(e1 != nil, "the option error is reported")
+		ch.AppendLambda(vNode("b", nil))
+		r, e2 := ch.Compile(ctx)
+		if e2 == nil { // or the chain is still open: then the appended stage is part of it
+			x := vsymInt("x")
+			in := map[string]any{"in": x}
+			out, rerr := r.Invoke(ctx, in)
+			want := map[string]any{"b": vsymUF("f_b", vFold(map[string]any{"a": vsymUF("f_a", vFold(in))}))}
+			vassert(rerr == nil && vMapEq(out, want), "a stage appended after a failed Compile is either refused or part of the chain")
+		}
+	case 1:
+		wf := NewWorkflow[map[string]any, map[string]any]()
+		wf.AddLambdaNode("a", vNode("a", nil)).AddInput(START)
+		wf.AddBranch("a", NewGraphBranch(func(ctx context.Context, in map[string]any) (string, error) { return "late", nil }, map[string]bool{"late": true, END: true}))
+		wf.End().AddInput("a")
+		_, e1 := wf.Compile(ctx)
+		vassert(e1 != nil, "a branch to an unknown node is rejected by Compile")
+		wf.AddLambdaNode("late", vNode("late", nil)).AddInputWithOptions("a", nil, WithNoDirectDependency())
+		_, e2 := wf.Compile(ctx)
+		vassert(e2 != nil, "the first error sticks: repairing the declarations afterwards does not make the workflow compile")
+	case 2:
+		wf := NewWorkflow[map[string]any, map[string]any]()
+		wf.AddLambdaNode("a", vNode("a", nil)).AddInput(START, nil)
+		wf.End().AddInput("a")
+		_, err := wf.Compile(ctx)
+		vassert(err != nil, "a nil field mapping is rejected")
+	case 3:
+		err := NewGraph[map[string]any, map[string]any]().AddLambdaNode("k", &Lambda{})
+		vassert(err != nil, "a Lambda value without an executor is rejected")
+	case 4:
+		cb := &ChainBranch{}
+		cb.AddLambda("x", vNode("x", nil))
+		cb.AddLambda("y", vNode("y", nil))
+		_, err := NewChain[map[string]any, map[string]any]().AppendLambda(vNode("a", nil)).AppendBranch(cb).Compile(ctx)
+		vassert(err != nil, "a chain branch without a condition is rejected")
+	}
+}
